@@ -361,6 +361,28 @@ fn mutate(rng: &mut Rng, doc: &mut J) -> &'static str {
     }
 }
 
+/// The very deep documents of section 6: `kind` = where the nesting sits, `shape` = what nests.
+pub fn deep_doc(kind: &str, depth: usize, shape: &str) -> Vec<u8> {
+    let (open, close) = if shape == "arr" { ("[", "]") } else { ("{\"a\":", "}") };
+    let closed = !kind.ends_with("-open");
+    let inner = format!("{}{}", open.repeat(depth), if closed { format!("1{}", close.repeat(depth)) } else { String::new() });
+    match kind.trim_end_matches("-open") {
+        "ignored" => format!("{{\"response\":{{\"protocol\":\"3.0\",\"app\":[],\"deep\":{}{}", inner, if closed { "}}" } else { "" }),
+        "extension" => format!("{{\"response\":{{\"protocol\":\"3.0\",\"app\":[{{\"appid\":\"a\",\"status\":\"ok\",\"deep\":{}{}", inner, if closed { "}]}}" } else { "" }),
+        "prefixed" => format!(")]}}'\n{{\"response\":{{\"protocol\":\"3.0\",\"app\":[{{\"appid\":\"a\",\"status\":\"ok\",\"updatecheck\":{{\"status\":\"ok\",\"deep\":{}{}", inner, if closed { "}}]}}" } else { "" }),
+        _ => inner,
+    }.into_bytes()
+}
+
+pub fn deep_child(kind: &str, depth: usize, shape: &str) {
+    let doc = deep_doc(kind, depth, shape);
+    let t = std::thread::Builder::new().stack_size(256 * 1024).spawn(move || {
+        let r = std::panic::catch_unwind(|| parse_json_response(&doc).is_ok());
+        match r { Ok(_) => "survives", Err(_) => "panic" }
+    }).expect("spawn");
+    println!("{}", t.join().unwrap_or("panic"));
+}
+
 pub fn run(o: &Opts, rng: &mut Rng) -> Sink {
     let mut sink = Sink::new("resp");
     let push = |sink: &mut Sink, bytes: Vec<u8>, class: Option<String>, tag: &str| {
@@ -423,6 +445,27 @@ pub fn run(o: &Opts, rng: &mut Rng) -> Sink {
             let ext = format!("{{\"response\":{{\"protocol\":\"3.0\",\"app\":[{{\"appid\":\"a\",\"status\":\"ok\",\"deep\":{}}}]}}}}", inner);
             push(&mut sink, ext.into_bytes(), Some(format!("deep-extension/{}/{}", depth, open.len())), "deep");
             push(&mut sink, inner.into_bytes(), Some(format!("deep-top/{}/{}", depth, open.len())), "deep");
+        }
+    }
+    // 6. nesting far beyond any stack (100 000 and 1 000 000 levels, closed or cut off), each document parsed in a
+    // child process on a 256 KiB stack: the parser must come back (with an error or a value), not overflow
+    if !o.only_corpus {
+        let exe = std::env::current_exe().expect("exe");
+        for depth in [100_000usize, 1_000_000] {
+            for kind in ["ignored", "extension", "prefixed", "top", "ignored-open", "extension-open", "prefixed-open", "top-open"] {
+                for shape in ["arr", "obj"] {
+                    sink.bump("gen:deep-child");
+                    let input = format!("deepparse {} {} {}", kind, depth, shape);
+                    let exe = exe.clone();
+                    sink.case(input, Some(format!("deepchild/{}/{}/{}", kind, depth, shape)), move || {
+                        match std::process::Command::new(&exe).args(["deepchild", kind, &depth.to_string(), shape]).output() {
+                            Ok(out) if out.status.success() => String::from_utf8_lossy(&out.stdout).trim().to_string(),
+                            Ok(_) => "crash".to_string(),          // killed by a signal: stack overflow
+                            Err(_) => "spawn-failed".to_string(),
+                        }
+                    });
+                }
+            }
         }
     }
     sink
